@@ -53,6 +53,38 @@ def run(ctx: RuleContext):
     from .c19 import check_no_decoration_time_switch
 
     ctx.reuse("C07.9", check_no_decoration_time_switch, ctx, "C07.9")
+    ctx.sub(check_unwinding_cannot_raise, ctx, r)
+
+
+# ------------------------------------------------------------------------ C07.10
+def check_unwinding_cannot_raise(ctx, r):
+    """The wrappers leave their context in a `finally:` -- whatever that clause raises *replaces* the result of a well-typed call, or the
+    exception its body raised.  The pop primitive must therefore not raise of its own accord (a "stack out of sync" consistency check
+    turns a well-typed call whose body advanced a generator suspended in another context into a RuntimeError)."""
+    from .c05 import follow_delegate
+
+    m = ctx.model
+    pop = follow_delegate(m, r.pop)
+    ctx.saw(pop)
+    raises = [x for x in walk_scope(pop.node) if isinstance(x, ast.Raise)] + [x for x in walk_scope(pop.node) if isinstance(x, ast.Assert)]
+    # ... nor the finally clauses themselves
+    sites = []
+    w = r.wrappers()
+    for f in list(w["wraps"]) + list(w["impl"]) + [x for x in m.all_functions(include_typeguard=False) if x.cls is not None and x.name == "__exit__" and x.module.short == "_decorator"]:
+        for t in walk_scope(f.node):
+            if isinstance(t, ast.Try) and t.finalbody:
+                for x in t.finalbody:
+                    for y in ast.walk(x):
+                        if isinstance(y, (ast.Raise, ast.Assert)):
+                            sites.append((f, y))
+    ctx.counters["unwinding_sites"] = 1 + len(w["wraps"])
+    for x in raises:
+        ctx.bad("C07.10", pop, x, f"`{short(x, 60)}`: the function that leaves a context can raise by itself; the wrappers call it in a `finally:`, so that exception replaces the result of "
+                "a well-typed call or the exception raised by its body", construct="raise while unwinding the context")
+    for f, y in sites:
+        ctx.bad("C07.10", f, y, f"`{short(y, 60)}` in a `finally:` of the wrapper replaces the result / the exception of the wrapped call", construct="raise in the wrapper's finally")
+    if not raises and not sites:
+        ctx.ok("C07.10", pop.qualname, "leaving the context raises nothing of its own (no raise / assert in the pop primitive or in the wrappers' finally clauses)")
 
 
 # ------------------------------------------------------------------------ C07.8
@@ -493,6 +525,8 @@ def check_metadata(ctx, r):
                 ok_all = False
                 ctx.bad("C07.4", jt, rt, "a property is not rebuilt as a property")
                 continue
+            if any(k.arg is None for k in v.keywords) or any(isinstance(a, ast.Starred) for a in v.args):
+                raise AnalysisError(f"C07.4: the property is rebuilt from a mapping / sequence (`{short(v, 50)}`); which accessor ends up where is not followed")
             kws = {k.arg: k.value for k in v.keywords}
             for i, a in enumerate(v.args):
                 kws[("fget", "fset", "fdel", "doc")[i]] = a
@@ -662,6 +696,8 @@ class Taint:
             if key in self.f.params and not defs:
                 if self.guarded_identifier(e):
                     return True
+                if self._only_literal_arguments(key):
+                    return True
                 self.reasons.append((e, f"`{key}` is an unvalidated string parameter"))
                 return False
             self.stack.add(key)
@@ -763,6 +799,19 @@ def check_template_hygiene(ctx, r):
                 adds = [x for x in walk_scope(f.node) if isinstance(x, ast.Call) and isinstance(x.func, ast.Attribute) and isinstance(x.func.value, ast.Name)
                         and x.func.value.id == a0.id and x.func.attr in ("add", "update")]
                 augs = [x for x in walk_scope(f.node) if isinstance(x, ast.AugAssign) and isinstance(x.target, ast.Name) and x.target.id == a0.id]
+                if not adds and not augs and defs_:
+                    # a snapshot: taken outside the loop in which this name is generated while that loop goes on storing generated names into the
+                    # exec scope -> names generated in earlier iterations are not avoided (two parameters can end up sharing one slot)
+                    loops_c = [lp for lp in walk_scope(f.node) if isinstance(lp, (ast.For, ast.While)) and any(y is c for y in ast.walk(lp))]
+                    if loops_c:
+                        lp0 = loops_c[-1]
+                        inside = all(any(y is d[0] for y in ast.walk(lp0)) for d in defs_)
+                        grows = [st for st in ast.walk(lp0) if isinstance(st, ast.Assign) and any(isinstance(tg, ast.Subscript) and norm(tg.value) == "scope" for tg in st.targets)]
+                        if not inside and grows:
+                            ctx.bad("C07.5", f, c, f"`{short(c, 60)}` avoids `{a0.id}`, a set computed once before the loop (`{short(defs_[0][0], 50)}`), while the loop goes on storing "
+                                    f"generated names into the exec scope (`{short(grows[0], 40)}`): a name generated for an earlier parameter is not avoided, so two parameters can "
+                                    "share one annotation / default slot (a parameter literally called `T0` shifts the numbering)", construct=f"stale set of names to avoid: {a0.id}")
+                            continue
                 if adds or augs:
                     if augs or any(x.func.attr != "add" or len(x.args) != 1 for x in adds) or not defs_:
                         raise AnalysisError(f"C07.5: the set of names to avoid (`{a0.id}`) is maintained in a way the rule cannot follow")
@@ -989,3 +1038,46 @@ def check_coroutine_coverage(ctx, r):
                     "the return annotation and the call is rejected")
         else:
             ctx.ok("C07.7", impl.qualname, f"coroutine functions are told apart (`{norm(marker)}`) before the return annotation is applied")
+
+
+def _only_literal_arguments(self, pname: str) -> bool:
+    """The parameter `pname` of a *new local helper* (a nested function, not in the pinned inventory) only ever receives string literals
+    written in the package (its default and the argument at every call site): text of the maintainer, not of the decorated function."""
+    f = self.f
+    from ..model import FuncInfo as _FI
+
+    if not isinstance(getattr(f, "parent", None), _FI):
+        return False
+    try:
+        from ..inventory import FUNCTIONS as _FN
+    except ImportError:
+        return False
+    if f.qualname in _FN:
+        return False
+    a = f.node.args
+    pos = [x.arg for x in a.posonlyargs + a.args]
+    defaults = dict(zip(reversed(pos), reversed(a.defaults)))
+    for x, d in zip(a.kwonlyargs, a.kw_defaults):
+        if d is not None:
+            defaults[x.arg] = d
+    sites = [c for c in ast.walk(f.parent.node) if isinstance(c, ast.Call) and isinstance(c.func, ast.Name) and c.func.id == f.name]
+    refs = [n for n in ast.walk(f.parent.node) if isinstance(n, ast.Name) and n.id == f.name and isinstance(n.ctx, ast.Load)]
+    if not sites or len(refs) != len(sites):
+        return False
+    for c in sites:
+        if any(isinstance(x, ast.Starred) for x in c.args) or any(k.arg is None for k in c.keywords):
+            return False
+        val = None
+        if pname in pos and pos.index(pname) < len(c.args):
+            val = c.args[pos.index(pname)]
+        for k in c.keywords:
+            if k.arg == pname:
+                val = k.value
+        if val is None:
+            val = defaults.get(pname)
+        if not (isinstance(val, ast.Constant) and isinstance(val.value, str)):
+            return False
+    return True
+
+
+Taint._only_literal_arguments = _only_literal_arguments
